@@ -74,8 +74,12 @@ Arguments HSampleN {F} n.
 Arguments HSampleFrac {F} f.
 Arguments HLastN {F} n fld.
 Arguments HLastFrac {F} f fld.
+(* the row of a user without interactions is an empty item list, which carries no fields at all *)
 Definition col_of (fld : field) (row : list rec) : option (list Z) :=
-  match fld with FTime => Some (map rt row) | FAttr => Some (map ra row) | FMissing => None end.
+  match row with
+  | [] => None
+  | _ => match fld with FTime => Some (map rt row) | FAttr => Some (map ra row) | FMissing => None end
+  end.
 (* what the libraries returned for one call of the hold-out: the rng.choice draw and the argsort *)
 Definition hdraw : Type := list nat * list nat.
 Definition no_draw : hdraw := ([], []).
